@@ -25,14 +25,31 @@ pub const TOKEN_KINDS: [&str; 34] = [
 ];
 
 fn probes() -> Vec<TV> {
+    // per type: a value with pairwise distinct fields, the zero / first value and an extreme
+    // (table indices 0 and maximal, sign handling, whole-year / whole-day intervals)
     let w = world();
+    let tmin = w.cal.min_day as i64 * US_DAY;
+    let tmax = (w.cal.max_day as i64 + 1) * US_DAY - 1;
     vec![
         TV { ty: Ty::Date, raw: w.cal.day_number(2021, 4, 22) as i64 },
+        TV { ty: Ty::Date, raw: w.cal.min_day as i64 },
+        TV { ty: Ty::Date, raw: w.cal.max_day as i64 },
         TV { ty: Ty::Time, raw: 13 * US_HOUR + 7 * US_MIN + 9 * US_SEC + 123_456 },
+        TV { ty: Ty::Time, raw: 0 },
+        TV { ty: Ty::Time, raw: US_DAY - 1 },
         probe_ts(),
+        TV { ty: Ty::Timestamp, raw: tmin },
+        TV { ty: Ty::Timestamp, raw: tmax },
         TV { ty: Ty::IntervalYM, raw: -(12 * 1234 + 5) },
+        TV { ty: Ty::IntervalYM, raw: 0 },
+        TV { ty: Ty::IntervalYM, raw: 36 },
+        TV { ty: Ty::IntervalYM, raw: 2_136_000_000 },
         TV { ty: Ty::IntervalDT, raw: 45 * US_DAY + 13 * US_HOUR + 7 * US_MIN + 9 * US_SEC + 123_456 },
+        TV { ty: Ty::IntervalDT, raw: 0 },
+        TV { ty: Ty::IntervalDT, raw: -100_000_000 * US_DAY },
         TV { ty: Ty::OracleDate, raw: probe_ts().raw / US_SEC * US_SEC },
+        TV { ty: Ty::OracleDate, raw: tmin },
+        TV { ty: Ty::OracleDate, raw: tmax - 999_999 },
     ]
 }
 
@@ -292,9 +309,10 @@ pub fn run(ctx: &mut Ctx) {
     ctx.require(&r, &["picture_accepted", "picture_rejected"]);
 
     // 4. the Display path: an inapplicable field is an error, not a panic
-    let r = ctx.sweep_each(&format!("{pre}display_sink"), "write!(sink, \"{}\", value.format(token)?) for every (type, token kind) pair", nt * 6, 8, |idx, acc| {
-        let t = TOKEN_KINDS[(idx / 6) as usize];
-        let tv = &pr_r[(idx % 6) as usize];
+    let np = pr.len() as u64;
+    let r = ctx.sweep_each(&format!("{pre}display_sink"), "write!(sink, \"{}\", value.format(token)?) for every (probe value of each type, token kind) pair", nt * np, 8, |idx, acc| {
+        let t = TOKEN_KINDS[(idx / np) as usize];
+        let tv = &pr_r[(idx % np) as usize];
         acc.states += 1;
         acc.t(1);
         acc.traces += 1;
